@@ -261,6 +261,8 @@ def history(rng, rep, budget, fails, jobs):
                         rep.evaluations += 1
                         if c5["rc"] != 0 or str(J5["spec"]) not in t5 or str(J5["alg"]) not in t5:
                             fails.append(dict(what="`info %s` (exit %d) does not show the library's answer %s: %s" % (o, c5["rc"], J5, t5[:200]), history=hist))
+        content_listings(rng, rep, pair, fails, hist, ids)
+        diff_renderings(rng, rep, pair, fails, hist, ids)
         # validate: object and repository mode under options, after identical damage on both sides
         validate_cases(rng, rep, pair, budget, fails, jobs, hist)
         # listings over objects that cannot be read: the listing goes on, the exit status is 1 — for every
@@ -295,6 +297,163 @@ def history(rng, rep, budget, fails, jobs):
                         jobs.append(dict(kind="exit", what="`%s` printed %d lines for %d readable objects" % (" ".join(a), len(lines), len(J["objects"])), history=hist[-4:]))
     finally:
         pair.close()
+
+
+def _simple_glob(g, literal_separator):
+    """literals, * and ? only (what this phase generates); bytes, as globset matches"""
+    out = b""
+    for ch in g.encode("utf-8"):
+        c = bytes([ch])
+        if c == b"*":
+            out += b"[^/]*" if literal_separator else b".*"
+        elif c == b"?":
+            out += b"[^/]" if literal_separator else b"."
+        else:
+            out += re.escape(c)
+    rx = re.compile(b"^" + out + b"$", re.S)
+    return lambda x: rx.match(x.encode("utf-8")) is not None
+
+
+def expected_listing(state, glob, dirs_mode):
+    """what `ls [-D] <object> [<path>]` has to print, from the help text of the command: without -D every logical
+    path the glob matches (`*` crosses '/'); with -D the query is read like `ls` on a file system - the files and
+    directories the glob names, and if that is exactly one directory (and no file), its direct children"""
+    g = (glob or "*").lstrip("/") or "*"
+    files = sorted(state)
+    if not dirs_mode:
+        m = _simple_glob(g, False)
+        return sorted(p for p in files if m(p))
+    dirs = sorted({"/".join(p.split("/")[:i]) for p in files for i in range(1, p.count("/") + 1)})
+    m = _simple_glob(g, True)
+    trailing = g.endswith("/")
+    F = [p for p in files if m(p)]
+    DM = [d for d in dirs if m(d + "/" if trailing else d)]
+    if not F and len(DM) == 1 and g != "*":
+        m2 = _simple_glob(g + ("*" if trailing else "/*"), True)
+        return sorted([p for p in files if m2(p)] + [d + "/" for d in dirs if d not in DM and m2(d)])
+    return sorted(F + [d + "/" for d in DM])
+
+
+def content_listings(rng, rep, pair, fails, hist, ids):
+    """`ls` of object contents: every rendering option and path query, on committed versions and on the staged
+    version; names, the version each file is attributed to, digests and physical paths against the library's answer"""
+    for o in ids:
+        for staged in (False, True):
+            st = pair.live.ask(("staged %s" % hx(o)) if staged else ("ver %s -" % hx(o)))
+            if not st.startswith("ok "):
+                continue
+            J = json.loads(st[3:])
+            state = J["state"]
+            paths = sorted(state)
+            if not paths:
+                continue
+            dirs = sorted({"/".join(p.split("/")[:i]) for p in paths for i in range(1, p.count("/") + 1)})
+            queries = [None, "*", rng.choice(paths), "missing-path", "*.txt", "?.*"]
+            if dirs:
+                d = rng.choice(dirs)
+                queries += [d, d + "/", d + "/*", d[:1] + "*", "*/" + paths[0].split("/")[-1]]
+            for q in rng.sample(queries, min(len(queries), 5)):
+                D = rng.random() < 0.55
+                opts = ["-t"] + (["-D"] if D else []) + (["-S"] if staged else [])
+                cols = ["name"]
+                if rng.random() < 0.5:
+                    opts.append("-l"); cols = ["version", "updated", "name"]
+                if rng.random() < 0.3:
+                    opts.append("-p"); cols.append("physical")
+                if rng.random() < 0.4:
+                    opts.append("-d"); cols.append("digest")
+                if rng.random() < 0.4:
+                    opts += ["-s", rng.choice(["name", "version", "updated", "physical", "digest", "none"])]
+                if rng.random() < 0.3:
+                    opts.append("-r")
+                argv = ["ls"] + opts + [o] + ([q] if q is not None else [])
+                cli = pair.sb.run(argv)
+                rep.evaluations += 1
+                want = expected_listing(state, q, D)
+                rows = [l.split("\t") for l in cli["out"].decode("utf-8", "replace").split("\n") if l.strip()]
+                what = "`%s`" % " ".join(argv)
+                rep.classes.add("lsc|%s|%s|rc%d" % (",".join(sorted(x for x in opts if x.startswith("-") and len(x) == 2)), "hit" if want else "empty", cli["rc"]))
+                rep.count("content-listing:%s" % ("some" if want else "none"))
+                if cli["rc"] != 0:
+                    fails.append(dict(what="%s exits %d: %s" % (what, cli["rc"], cli["err"][-200:]), history=hist[-6:])); continue
+                if any(len(r) != len(cols) for r in rows):
+                    fails.append(dict(what="%s: a line does not have the %d columns the options ask for: %r" % (what, len(cols), rows[:2]), history=hist[-6:])); continue
+                # cells are padded to the column width even with tab separation; the generated names do not end in blanks
+                rows = [[c.rstrip(" ") for c in r] for r in rows]
+                got = sorted(r[cols.index("name")] for r in rows)
+                if got != want:
+                    fails.append(dict(what="%s prints %r, the object holds %r: expected %r" % (what, got[:8], paths[:8], want[:8]), history=hist[-6:])); continue
+                for r in rows:
+                    name = r[cols.index("name")]
+                    if name.endswith("/") or name not in state:
+                        continue
+                    dg, cpath, upd, phys_path = state[name]
+                    if "version" in cols and r[cols.index("version")].strip() != upd:
+                        fails.append(dict(what="%s attributes %r to %s, the library to %s" % (what, name, r[cols.index("version")].strip(), upd), history=hist[-6:])); break
+                    if "digest" in cols and r[cols.index("digest")].strip() != "%s:%s" % (J["alg"], dg):
+                        fails.append(dict(what="%s shows digest %s for %r, the library %s:%s" % (what, r[cols.index("digest")][:30], name, J["alg"], dg[:16]), history=hist[-6:])); break
+                    if "physical" in cols:
+                        # several content files may carry the digest (which one is shown depends on hash order): the path
+                        # shown must be a file inside the repository with exactly those bytes
+                        pp = r[cols.index("physical")].strip()
+                        full = pp if os.path.isabs(pp) else os.path.join(pair.sb.dir, pp)
+                        inside = os.path.realpath(full).startswith(os.path.realpath(pair.sb.root) + "/") or os.path.realpath(full).startswith(os.path.realpath(pair.sb.staging) + "/")
+                        if not inside or not os.path.isfile(full) or hashlib.new(J["alg"], open(full, "rb").read()).hexdigest() != dg:
+                            fails.append(dict(what="%s shows physical path %s for %r: not a file in the repository with the listed digest" % (what, pp, name), history=hist[-6:])); break
+
+
+def _diff_lines(text):
+    out = []
+    for l in text.split("\n"):
+        m = re.match(r"^(Added|Modified|Deleted|Renamed)\s+(.*?)\s*$", l)
+        if m:
+            out.append((m.group(1)[0], m.group(2)))
+    return sorted(out)
+
+
+def _lib_diff(ans):
+    out = []
+    for d in json.loads(ans[3:]):
+        if d[0] == "R":
+            out.append(("R", "%s -> %s" % (", ".join(d[1]), ", ".join(d[2]))))
+        else:
+            out.append((d[0], d[1]))
+    return sorted(out)
+
+
+def diff_renderings(rng, rep, pair, fails, hist, ids):
+    """`diff`, `show` and `show -S`: one line per change, operation and path(s) as the library reports them"""
+    for o in ids:
+        hd = pair.live.ask("heads %s" % hx(o))
+        m = re.search(r"main=v0*(\d+) staged=(\S+)", hd)
+        if not m:
+            continue
+        head = int(m.group(1))
+        cases = []
+        if head >= 2:
+            a, b = sorted(rng.sample(range(1, head + 1), 2))
+            if rng.random() < 0.3:
+                a, b = b, a
+            cases.append((["diff", o, "v%d" % a, "v%d" % b], "diff %s v%d v%d" % (hx(o), a, b)))
+        k = rng.randint(1, head)
+        cases.append((["show", "-m", o, "v%d" % k], "diff %s - v%d" % (hx(o), k)))
+        cases.append((["show", "-m", o], "diff %s - v%d" % (hx(o), head)))
+        if m.group(2) != "-":
+            cases.append((["show", "-S", "-m", o], "diffstaged %s" % hx(o)))
+        for argv, line in cases:
+            lib = pair.live.ask(line)
+            cli = pair.sb.run(argv)
+            rep.evaluations += 1
+            rep.classes.add("diffr|%s|%s|rc%d" % (argv[0], "-S" if "-S" in argv else "", cli["rc"]))
+            if lib.startswith("ok ") != (cli["rc"] == 0):
+                fails.append(dict(what="`%s` exits %d, the library call %s" % (" ".join(argv), cli["rc"], "succeeds" if lib.startswith("ok") else "fails: " + lib[:60]), history=hist[-6:]))
+                continue
+            if not lib.startswith("ok "):
+                continue
+            got, want = _diff_lines(cli["out"].decode("utf-8", "replace")), _lib_diff(lib)
+            rep.count("diff-rendering:%d" % min(len(want), 3))
+            if got != want:
+                fails.append(dict(what="`%s` prints %r, the library reports %r" % (" ".join(argv), got[:6], want[:6]), history=hist[-6:]))
 
 
 DAMAGE = ["none", "stray-in-object", "delete-content", "stray-in-hierarchy", "empty-dir-in-hierarchy", "root-extra-spec", "corrupt-content"]
